@@ -79,6 +79,11 @@ func builtinAxioms() []*Term {
 		Forall([]*Term{y}, Eq(App("unbox_seq", SSeq, App("box_seq", SInt, y)), y), App("box_seq", SInt, y)),
 		Ge(alloc0(), IntLit(1)),
 	}
+	// sync.Map identities: smid(object, field) is injective
+	r := BoundVar("ax_r", SInt)
+	f := BoundVar("ax_f", SInt)
+	id := App("smid", SInt, r, f)
+	ax = append(ax, Forall([]*Term{r, f}, And(Eq(App("smid_obj", SInt, id), r), Eq(App("smid_fld", SInt, id), f)), id))
 	return ax
 }
 
@@ -264,6 +269,8 @@ func (e *Engine) resolveFrame(c *Contract, vars map[string]SVal, pkg *types.Pack
 			fi.all = true
 		case m == "ghosts":
 			fi.ghosts = true
+		case m == "syncmaps":
+			fi.keys["SM:dom"], fi.keys["SM:tag"], fi.keys["SM:val"] = true, true, true
 		case strings.HasPrefix(m, "* except "):
 			unsupp("`modifies * except T` is only available on abstract / trusted contracts (it is not checked against a body)")
 		case m == "big":
